@@ -407,7 +407,7 @@ def op_digits(s):
 def op_third_basetype(s):
     s = copy.deepcopy(s)
     vk, sk = s["version"]["key"], s["state"]["key"]
-    s["basetypes"].append({"name": "render", "code": "r", "folder": "RENDERS",
+    s["basetypes"].append({"name": s["basetypes"][0]["name"] + "lib", "code": "r", "folder": "RENDERS",      # its name extends the first basetype's name
                            "chain": [("layer", "open", None), ("pass", "closed", ["beauty", "depth"]), (vk, "version", None), (sk, "state", None)],
                            "dirs": {"layer": "{layer}", "pass": "{pass}", vk: "{%s}" % vk},
                            "constants": {}, "leaf_key": "task",      # own leaf key, spelled like a mid-level key of the other basetypes
